@@ -305,7 +305,7 @@ pub(crate) mod verif_pc {
     /// at or below the sync layer's LAST CONFIRMED frame - whose saved state is final -, never on the
     /// strength of inputs that arrived in this very call but have not been resimulated yet; the
     /// report carries the frame and checksum of the saved cell.
-    fn checksum_send_gate(interval: u32, k: Frame) {
+    fn checksum_send_gate(interval: u32, k: Frame, off: Frame) {
         let mut s = mk_session_ep(3, DesyncDetection::On { interval });
         let iv = interval as Frame;
         let sent: Frame = if k == 0 { NULL_FRAME } else { k * iv }; // last frame a checksum was sent for
@@ -322,8 +322,7 @@ pub(crate) mod verif_pc {
         let cks: u32 = kani::any();
         // with sparse saving the due frame itself may have no saved state: the newest saved frame in [due, lc] is
         // reported instead - under ITS OWN frame number (both peers label a checksum with the frame it belongs to)
-        let off: Frame = kani::any();
-        kani::assume(off >= 0 && off <= 2);
+        // (off is concrete per instance: a symbolic frame would make the cell index symbolic)
         let saved = due + off;
         save_cell(&s, saved, cks);
         s.check_checksum_send_interval();
@@ -337,26 +336,27 @@ pub(crate) mod verif_pc {
             assert!(s.local_checksum_history.is_empty());
         }
         kani::cover!(due > lc && due <= newest, "inputs for the frame arrived but it has not been re-simulated");
-        kani::cover!(due <= lc && off == 0, "reported");
-        kani::cover!(saved <= lc && off == 2, "sparse saving: a later saved frame is reported in place of the due one");
+        kani::cover!(saved <= lc, "reported");
         core::mem::forget(s);
     }
 
     macro_rules! checksum_gate {
-        ($name:ident, $iv:expr, $k:expr) => {
-            /// (instance: desync interval, number of reports already sent; confirmed frames symbolic)
+        ($name:ident, $iv:expr, $k:expr, $off:expr) => {
+            /// (instance: desync interval, number of reports already sent, distance of the saved stand-in frame from the due
+            /// frame - 0 = dense saving; confirmed frames and the checksum symbolic)
             #[kani::proof]
             #[kani::unwind(8)]
             #[kani::stub(crate::network::protocol::millis_since_epoch, stub_millis)]
             #[kani::stub(alloc::fmt::format, stub_format)]
             fn $name() {
-                checksum_send_gate($iv, $k);
+                checksum_send_gate($iv, $k, $off);
             }
         };
     }
-    checksum_gate!(pc_checksum_send_gate_iv1_first, 1, 0);
-    checksum_gate!(pc_checksum_send_gate_iv2_third, 2, 2);
-    checksum_gate!(pc_checksum_send_gate_iv3_tenth, 3, 9);
+    checksum_gate!(pc_checksum_send_gate_iv1_first, 1, 0, 0);
+    checksum_gate!(pc_checksum_send_gate_iv2_third, 2, 2, 0);
+    checksum_gate!(pc_checksum_send_gate_iv2_third_sparse, 2, 2, 2);
+    checksum_gate!(pc_checksum_send_gate_iv3_tenth, 3, 9, 0);
 
     /// compare_local_checksums_against_peers: DesyncDetected is raised iff a peer's report and our own
     /// checksum exist for the same frame below the last confirmed frame and differ - carrying exactly
